@@ -119,6 +119,12 @@ def gen_C03(g, tier):
         cs.append(Case('q.sdiv %s %s' % (frs(qa), fr(c[0])), 'cmp', 'random'))
         cs.append(Case('q.addscalar %s %s' % (frs(qa), fr(c[0])), 'cmp', 'random'))
         cs.append(Case('q.get %s %d' % (frs(qa), g.randint(0, 3)), 'cmp', 'random'))
+        for k in range(4):
+            cs.append(Case('q.smul.self %s %d' % (frs(qa), k), 'cmp', 'scalar-from-self'))
+            cs.append(Case('q.sdiv.self %s %d' % (frs(qa), k), 'cmp', 'scalar-from-self'))
+            cs.append(Case('b.smul.self %s %d' % (frs(a), k), 'cmp', 'scalar-from-self'))
+            cs.append(Case('b.sdiv.self %s %d' % (frs(a), k), 'cmp', 'scalar-from-self'))
+            cs.append(Case('o.c03.scalself %s %d' % (frs(a), k), 'orc', 'scalar-from-self'))
         cs.append(Case('q.scalarvector %s' % frs(g.rats(4)), 'cmp', 'random'))
         j = cxs(g, 4)
         cs.append(Case('cv.toH %s' % frs(j), 'cmp', 'random'))
